@@ -6,4 +6,4 @@ cd "$(dirname "$0")"
 export CARGO_NET_OFFLINE=true
 mkdir -p work evidence .build
 ( cd coq && rm -f _CoqProject Makefile Makefile.conf && timeout 7000 ./mk.sh -k ) || echo "setup: some Coq files failed to build (the per-property checks will report it)"
-( cd harness && RUSTFLAGS="--cfg clarabel_verif" timeout 3000 cargo build --offline ) || echo "setup: harness build failed (the checks will report it)"
+( cd harness && RUSTFLAGS="--cfg clarabel_verif" timeout 3000 cargo build --offline --bins ) || echo "setup: harness build failed (the checks will report it)"
